@@ -1,6 +1,11 @@
 // Package base32 implements utilities for encoding and decoding text using I2P's alphabet
 package base32
 
+import (
+	b32 "encoding/base32"
+	"strings"
+)
+
 // EncodeToString encodes binary data to a base32 string using I2P's encoding alphabet.
 // It converts arbitrary byte data into a human-readable base32 string representation
 // using the I2P-specific lowercase alphabet defined in RFC 3548.
@@ -18,6 +23,9 @@ func EncodeToString(data []byte) string {
 func DecodeString(data string) ([]byte, error) {
 	// Parse I2P-specific base32 string with error handling
 	// Validates input characters against I2P alphabet before decoding
+	if err := validate(data, true); err != nil {
+		return nil, err
+	}
 	return I2PEncoding.DecodeString(data)
 }
 
@@ -32,6 +40,9 @@ func EncodeToStringNoPadding(data []byte) string {
 // This accepts the standard I2P .b32.i2p address format (52 unpadded characters
 // for a 32-byte hash).
 func DecodeStringNoPadding(data string) ([]byte, error) {
+	if err := validate(data, false); err != nil {
+		return nil, err
+	}
 	return I2PEncodingNoPadding.DecodeString(data)
 }
 
@@ -63,7 +74,7 @@ func DecodeStringSafe(data string) ([]byte, error) {
 	if len(data) > MAX_DECODE_SIZE {
 		return nil, ErrInputTooLarge
 	}
-	return I2PEncoding.DecodeString(data)
+	return DecodeString(data)
 }
 
 // DecodeStringSafeNoPadding decodes an unpadded base32 string with input validation.
@@ -76,5 +87,35 @@ func DecodeStringSafeNoPadding(data string) ([]byte, error) {
 	if len(data) > MAX_DECODE_SIZE {
 		return nil, ErrInputTooLarge
 	}
-	return I2PEncodingNoPadding.DecodeString(data)
+	return DecodeStringNoPadding(data)
+}
+
+// validate reports whether data is well-formed I2P base32 text, so that the decoders reject what
+// encoding/base32 lets through: it stops reading after a complete run of padding and ignores the
+// rest, its unpadded encoding takes the byte 0xFF for a padding character, and it returns no data
+// and no error for a final group of 1, 3 or 6 characters, which no encoder produces.
+// Well-formed text consists of alphabet characters followed, in the padded encoding only, by the
+// '=' characters that fill the last group of 8. CR and LF are skipped, as the decoder skips them.
+func validate(data string, padded bool) error {
+	chars, pads := 0, 0
+	for i := 0; i < len(data); i++ {
+		c := data[i]
+		switch {
+		case c == '\r' || c == '\n':
+		case padded && c == '=':
+			pads++
+		case pads > 0 || strings.IndexByte(I2PEncodeAlphabet, c) < 0:
+			return b32.CorruptInputError(i)
+		default:
+			chars++
+		}
+	}
+	switch chars % 8 {
+	case 1, 3, 6:
+		return b32.CorruptInputError(len(data))
+	}
+	if padded && ((chars+pads)%8 != 0 || pads >= 8) {
+		return b32.CorruptInputError(len(data))
+	}
+	return nil
 }
